@@ -114,6 +114,10 @@ func genCorpusCase(t *rapid.T, prop string) *corpusCase {
 	files := cffTaggedFiles(c.Pkg)
 	ops := mutOps
 	switch prop {
+	case "C13":
+		// also shapes whose verdict is free (cff must not crash, reject cleanly or emit compiling code)
+		ops = append(append([]string{}, mutOps...), freeOps...)
+		ops = append(ops, freeOps...)
 	case "C16":
 		ops = []string{"header", "header", "comment", "paren", "block", "closure", "extract", "dupfunc", "alias", "reorder"}
 	case "C02", "C04", "C10", "C11", "C15", "C03":
@@ -216,7 +220,7 @@ func runCorpusCase(c *corpusCase, prop string) *corpusOutcome {
 		}
 		return nil
 	})
-	reordered := false
+	reordered, free := false, false
 	labels := map[string]bool{"pkg:" + c.Pkg: true, "mode:" + c.Mode: true}
 	for _, m := range c.Muts {
 		fp := filepath.Join(pdir, m.File)
@@ -234,6 +238,9 @@ func runCorpusCase(c *corpusCase, prop string) *corpusOutcome {
 		labels["mut:"+lab] = true
 		if m.Op == "reorder" {
 			reordered = true
+		}
+		if isFreeOp(m.Op) {
+			free = true
 		}
 	}
 	for l := range labels {
@@ -270,6 +277,28 @@ func runCorpusCase(c *corpusCase, prop string) *corpusOutcome {
 	}
 	if crashed(o, code) {
 		add("C13", "cff died with a Go panic on a type-correct program (%s after %v):\n%s", c.Pkg, oc.applied, tailStr(o, 1500))
+		return oc
+	}
+	if free {
+		if code != 0 {
+			oc.labels = append(oc.labels, "free-verdict:rejected")
+		} else {
+			oc.labels = append(oc.labels, "free-verdict:accepted")
+		}
+	}
+	if code != 0 && free {
+		// free verdict: a clean rejection is fine
+		if !strings.Contains(o, ".go:") {
+			add("C13", "cff rejected %s (after %v) without a positioned diagnostic:\n%s", c.Pkg, oc.applied, tailStr(o, 1000))
+		}
+		after := dirSnapshot(mod)
+		for _, f := range tagged {
+			// no output for a file cff complained about; other files may be generated
+			gp := filepath.Join(c.Pkg, genName(f))
+			if _, ok := after[gp]; ok && strings.Contains(o, f+":") {
+				add("C13", "cff reported errors for %s/%s but wrote %s", c.Pkg, f, genName(f))
+			}
+		}
 		return oc
 	}
 	if code != 0 {
@@ -399,7 +428,8 @@ func runCorpusCase(c *corpusCase, prop string) *corpusOutcome {
 		}
 	}
 
-	// behaviour: the package's own tests
+	// behaviour: the package's own tests (not after a rotation of the options;
+	// after a free-verdict rewrite the accepted program must still behave)
 	if reordered {
 		return oc
 	}
